@@ -10,7 +10,7 @@ Import ListNotations.
 Require Import Fggs.Model.SCC Fggs.Model.SumProduct Fggs.Model.SumProductCheck
                Fggs.Model.EReal Fggs.Model.Trop Fggs.Model.Kleene.
 Require Import Fggs.Proofs.SP_mono Fggs.Proofs.Kleene_proofs Fggs.Proofs.Kleene_control Fggs.Proofs.Kleene_linear
-               Fggs.Proofs.Kleene_fixpoint Fggs.Proofs.Kleene_check.
+               Fggs.Proofs.Kleene_fixpoint Fggs.Proofs.Kleene_check Fggs.Proofs.Kleene_scc.
 Require Import Fggs.Model.Semiring.
 Local Open Scope nat_scope.
 
@@ -400,6 +400,37 @@ Theorem C02_fixed_point_result_below_prefix :
     forall v : env (R:=R), env_le_on o G (step o G w v) v -> env_le_on o G y0 v /\ env_le_on o G y1 v.
 Proof. exact (@fixed_point_result_below_prefix). Qed.
 Print Assumptions C02_fixed_point_result_below_prefix.
+
+(** SCC decomposition ([is_lfp_on o G S F mu]: F mu = mu at the in-range tuples of the labels in
+    S, and mu is below every v with F v <= v there; [comp_step o G w inp comp x] = step with x on
+    the component and inp elsewhere; [deps_in G comp earlier]: every nonterminal on a right-hand
+    side of the component is in comp or in earlier -- Proofs/Kleene_scc.v).  Solving a component
+    exactly, given exact values of what it depends on, yields the global least fixed point there *)
+Theorem C02_scc_component_exact :
+  forall R (o : sr_ops R), sr_ring o -> sr_ordered o ->
+  forall G w, wf_grammar G = true ->
+  forall (mu inp nu : env (R:=R)) comp earlier,
+    is_lfp_on o G (nonterminals G) (step o G w) mu ->
+    (forall n, In n comp -> In n (nonterminals G)) ->
+    deps_in G comp earlier ->
+    (forall X xi, In X earlier -> In xi (all_assts (lshape G X)) -> inp X xi = mu X xi) ->
+    is_lfp_on o G comp (comp_step o G w inp comp) nu ->
+    forall X xi, In X comp -> In xi (all_assts (lshape G X)) -> nu X xi = mu X xi.
+Proof. exact (@scc_component_exact). Qed.
+Print Assumptions C02_scc_component_exact.
+
+(** ... hence the driver (components in dependency order, each solved exactly with the earlier
+    results as inputs: [exact_run], [dep_ordered]) computes the global least fixed point *)
+Theorem C02_scc_decomposition :
+  forall R (o : sr_ops R), sr_ring o -> sr_ordered o ->
+  forall G w, wf_grammar G = true ->
+  forall (mu : env (R:=R)) order acc final,
+    is_lfp_on o G (nonterminals G) (step o G w) mu ->
+    exact_run o G w order acc final -> dep_ordered G [] order ->
+    (forall X, In X (nonterminals G) -> In X (concat order)) ->
+    forall X xi, In X (nonterminals G) -> In xi (all_assts (lshape G X)) -> final X xi = mu X xi.
+Proof. exact (@scc_decomposition_all). Qed.
+Print Assumptions C02_scc_decomposition.
 
 (** Bool: the Kleene chain is stationary after at most N = number of Boolean cells steps ... *)
 Theorem C02_bool_chain_stabilises :
